@@ -153,7 +153,7 @@ FUNCTIONS.update({
 
 EXTERNS = {
   'TimeSource.__call__': dict(params=[], returns='real', notes='the clock of this queue (time.time or the low-resolution source)'),
-  'gevent.spawn': dict(params=[('fn', 'any')], varargs=True, returns='any', allocates=True,
+  'gevent.spawn': dict(params=[('fn', 'any')], varargs=True, returns='Greenlet', fresh=True, allocates=True,
                        notes='starts a greenlet later; greenlets start in spawn order (assumed)'),
   'gevent.sleep': dict(params=[('seconds', 'real')], yields=True),
   'Event.wait': dict(params=[('timeout', 'real?')], returns='bool', yields=True,
